@@ -127,33 +127,67 @@ Definition reg := (string * val)%type.
 (* one scripted step: outputs emitted, registrations made through self.to_context, return value *)
 Record sret := mk_sret { sr_out : list (string * val); sr_reg : list reg; sr_ret : exn + rv reg }.
 
-(* the persisted user state: stream positions (kept in ctx on the Python side), ctx, outputs *)
-Record uw := mk_uw { u_pi : nat; u_ri : nat; u_ctx : list (string * val); u_outs : list (string * val) }.
+(* The inputs of the process as its steps see them.  [i_raw] is self.raw_inputs (None when the
+   process was created without inputs), [i_parsed] is self.inputs (always a mapping after on_create;
+   None only if a restore lost it), [i_seen] is what the steps recorded (in ctx) when they looked:
+   (self.raw_inputs is None, 'limit' in self.inputs, self.inputs.get('limit')). *)
+Definition seen := (bool * bool * val)%type.
+Record pins := mk_pins {
+  i_raw : option (list (string * val)); i_parsed : option (list (string * val)); i_seen : list seen }.
+
+Definition pins0 (inp : option (list (string * val))) : pins :=
+  mk_pins inp (Some (match inp with None => [] | Some d => d end)) [].
+
+(* a step consults its inputs: `'limit' in None` raises TypeError *)
+Definition look (p : pins) : exn + pins :=
+  match i_parsed p with
+  | None => inl EType
+  | Some d =>
+      inr (mk_pins (i_raw p) (i_parsed p)
+                   (i_seen p ++ [(match i_raw p with None => true | Some _ => false end, alist_mem "limit" d,
+                                  match alist_get "limit" d with Some v => v | None => VNone end)]))
+  end.
+
+Definition seen_eqb (a b : seen) : bool :=
+  Bool.eqb (fst (fst a)) (fst (fst b)) && Bool.eqb (snd (fst a)) (snd (fst b)) && val_eqb (snd a) (snd b).
+
+(* the persisted user state: stream positions (kept in ctx on the Python side), ctx, outputs, inputs *)
+Record uw := mk_uw { u_pi : nat; u_ri : nat; u_ctx : list (string * val); u_outs : list (string * val); u_in : pins }.
+Definition uw0 (inp : option (list (string * val))) : uw := mk_uw 0 0 [] [] (pins0 inp).
 
 Definition s_stepf (rets : list sret) (_ : fn) (w : uw) : uw * list reg * (exn + rv reg) :=
-  match nth_error rets (u_ri w) with
-  | None => (mk_uw (u_pi w) (S (u_ri w)) (u_ctx w) (u_outs w), [], inr RNone)
-  | Some r => (mk_uw (u_pi w) (S (u_ri w)) (u_ctx w) (sets (sr_out r) (u_outs w)), sr_reg r, sr_ret r)
+  match look (u_in w) with
+  | inl e => (w, [], inl e)
+  | inr i =>
+      match nth_error rets (u_ri w) with
+      | None => (mk_uw (u_pi w) (S (u_ri w)) (u_ctx w) (u_outs w) i, [], inr RNone)
+      | Some r => (mk_uw (u_pi w) (S (u_ri w)) (u_ctx w) (sets (sr_out r) (u_outs w)) i, sr_reg r, sr_ret r)
+      end
   end.
 
 Definition s_predf (preds : list bool) (_ : string) (w : uw) : uw * (exn + bool) :=
-  (mk_uw (S (u_pi w)) (u_ri w) (u_ctx w) (u_outs w),
+  (mk_uw (S (u_pi w)) (u_ri w) (u_ctx w) (u_outs w) (u_in w),
    inr (match nth_error preds (u_pi w) with Some b => b | None => false end)).
 
 Definition s_assign (aw : list reg) (w : uw) : uw :=
-  mk_uw (u_pi w) (u_ri w) (sets aw (u_ctx w)) (u_outs w).
+  mk_uw (u_pi w) (u_ri w) (sets aw (u_ctx w)) (u_outs w) (u_in w).
 
 (* what the bundle holds of the user state: '_context' (ContextMixin: present iff ctx is not None)
    and BundleKeys.OUTPUTS (present iff the outputs are non-empty; missing = {}) *)
-Record ub := mk_ub { ub_ctx : option (nat * nat * list (string * val)); ub_outs : option (list (string * val)) }.
+Record ub := mk_ub {
+  ub_ctx : option (nat * nat * list (string * val) * list seen); ub_outs : option (list (string * val));
+  (* BundleKeys.INPUTS_RAW / INPUTS_PARSED: present iff the attribute is not None; missing = None *)
+  ub_raw : option (list (string * val)); ub_parsed : option (list (string * val)) }.
 
 Definition u_save (w : uw) : ub :=
-  mk_ub (Some (u_pi w, u_ri w, u_ctx w)) (match u_outs w with [] => None | l => Some l end).
+  mk_ub (Some (u_pi w, u_ri w, u_ctx w, i_seen (u_in w))) (match u_outs w with [] => None | l => Some l end)
+        (i_raw (u_in w)) (i_parsed (u_in w)).
 
 Definition u_load (b : ub) : exn + uw :=
   match ub_ctx b with
   | None => inl EAttribute
-  | Some (p, r, c) => inr (mk_uw p r c (match ub_outs b with None => [] | Some l => l end))
+  | Some (p, r, c, sn) => inr (mk_uw p r c (match ub_outs b with None => [] | Some l => l end)
+                                     (mk_pins (ub_raw b) (ub_parsed b) sn))
   end.
 
 Fixpoint steps_of (i : instr) : list fn :=
@@ -223,10 +257,11 @@ Record wc_case := mk_wc {
   w_outline : instr; w_preds : list bool; w_rets : list sret; w_plan : list (nat * nat);
   w_by_name : bool;               (* measured on the implementation: is a step function rebound by its saved name? *)
   w_attrs : list (string * fn);   (* read off the generated class *)
+  w_inputs : option (list (string * val));   (* the inputs the process is created with *)
   (* observed on the implementation, run with restores: *)
   wo_bounds : list bobs; wo_result : wres;
   wo_calls : list call; wo_ctx : list (string * val); wo_outs : list (string * val);
-  wo_pi : nat; wo_ri : nat }.
+  wo_pi : nat; wo_ri : nat; wo_seen : list seen }.
 
 Definition wc_obsf (nm : names) (o : instr) (x : wcfg uw reg) : bobs :=
   match wc_save uw reg nm ub u_save o x with
@@ -244,7 +279,7 @@ Definition wc_model (c : wc_case) :=
   match create o with
   | inl _ => None
   | inr sp =>
-      let w0 := mk_uw 0 0 [] [] in
+      let w0 := uw0 (w_inputs c) in
       let '(obs, r) :=
         run_r_obs (wcfg uw reg) (wfinal uw reg)
                   (wc_step uw reg (s_stepf (w_rets c)) (s_predf (w_preds c)) s_assign o)
@@ -263,7 +298,8 @@ Definition wc_ok (c : wc_case) : bool :=
       list_eqb bobs_eqb obs (wo_bounds c) && wres_eqb (WResult r) (wo_result c) &&
       list_eqb call_eqb (icalls _ _ s) (wo_calls c) &&
       kvs_eqb (u_ctx (iw _ _ s)) (wo_ctx c) && kvs_eqb (u_outs (iw _ _ s)) (wo_outs c) &&
-      Nat.eqb (u_pi (iw _ _ s)) (wo_pi c) && Nat.eqb (u_ri (iw _ _ s)) (wo_ri c)
+      Nat.eqb (u_pi (iw _ _ s)) (wo_pi c) && Nat.eqb (u_ri (iw _ _ s)) (wo_ri c) &&
+      list_eqb seen_eqb (i_seen (u_in (iw _ _ s))) (wo_seen c)
   end.
 
 (* ---------------------------------------------------------------- plain Process cases *)
@@ -285,7 +321,8 @@ Definition tentry := (fn * list val * kwargs)%type.
    in ctx on the Python side), ctx, outputs *)
 Record pu := mk_pu {
   p_counts : list (string * nat); p_ctx : list (string * val); p_outs : list (string * val);
-  p_trace : list tentry }.
+  p_trace : list tentry; p_in : pins }.
+Definition pu0 (inp : option (list (string * val))) : pu := mk_pu [] [] [] [] (pins0 inp).
 
 Fixpoint pick {X} (n : nat) (l : list X) : option X :=
   match l with
@@ -311,30 +348,38 @@ Definition p_ufn (prog : program) (f : fn) (u : pu) (args : list val) (kw : kwar
   if is_foreign f then (u, inr (CmdStop (VInt 42) (Present true)))    (* module-level function *)
   else
     let n := count_of f u in
-    let u1 := mk_pu (alist_set f (S n) (p_counts u)) (p_ctx u) (p_outs u)
-                    (p_trace u ++ [(f, args, kw)]) in
-    match alist_get f prog with
-    | None => (u1, inl EAttribute)
-    | Some vs =>
-        match pick n vs with
-        | None => (u1, inr (CmdStop VNone (Present true)))
-        | Some v =>
-            (mk_pu (p_counts u1) (sets (v_set v) (p_ctx u1)) (sets (v_out v) (p_outs u1)) (p_trace u1),
-             ret_command (v_ret v))
+    let u0 := mk_pu (alist_set f (S n) (p_counts u)) (p_ctx u) (p_outs u)
+                    (p_trace u ++ [(f, args, kw)]) (p_in u) in
+    match look (p_in u) with
+    | inl e => (u0, inl e)
+    | inr i =>
+        let u1 := mk_pu (p_counts u0) (p_ctx u0) (p_outs u0) (p_trace u0) i in
+        match alist_get f prog with
+        | None => (u1, inl EAttribute)
+        | Some vs =>
+            match pick n vs with
+            | None => (u1, inr (CmdStop VNone (Present true)))
+            | Some v =>
+                (mk_pu (p_counts u1) (sets (v_set v) (p_ctx u1)) (sets (v_out v) (p_outs u1)) (p_trace u1) i,
+                 ret_command (v_ret v))
+            end
         end
     end.
 
 Record pub := mk_pub {
-  pub_ctx : option (list (string * nat) * list (string * val) * list tentry);
-  pub_outs : option (list (string * val)) }.
+  pub_ctx : option (list (string * nat) * list (string * val) * list tentry * list seen);
+  pub_outs : option (list (string * val));
+  pub_raw : option (list (string * val)); pub_parsed : option (list (string * val)) }.
 
 Definition pu_save (u : pu) : pub :=
-  mk_pub (Some (p_counts u, p_ctx u, p_trace u)) (match p_outs u with [] => None | l => Some l end).
+  mk_pub (Some (p_counts u, p_ctx u, p_trace u, i_seen (p_in u))) (match p_outs u with [] => None | l => Some l end)
+         (i_raw (p_in u)) (i_parsed (p_in u)).
 
 Definition pu_load (b : pub) : exn + pu :=
   match pub_ctx b with
   | None => inl EAttribute
-  | Some (c, x, t) => inr (mk_pu c x (match pub_outs b with None => [] | Some l => l end) t)
+  | Some (c, x, t, sn) => inr (mk_pu c x (match pub_outs b with None => [] | Some l => l end) t
+                                     (mk_pins (pub_raw b) (pub_parsed b) sn))
   end.
 
 Inductive pres :=
@@ -365,9 +410,10 @@ Record proc_case := mk_pc {
   q_prog : program; q_resume : list (option val); q_plan : list (nat * nat);
   q_keep_kwargs : bool;           (* measured on the implementation: does Continue(f, **kw) reach f? *)
   q_attrs : list (string * fn);   (* read off the generated class *)
+  q_inputs : option (list (string * val));
   (* observed, run with restores: *)
   qo_bounds : list pnode; qo_result : pres;
-  qo_trace : list tentry; qo_ctx : list (string * val); qo_outs : list (string * val) }.
+  qo_trace : list tentry; qo_ctx : list (string * val); qo_outs : list (string * val); qo_seen : list seen }.
 
 Definition resume_fn (l : list (option val)) (k : nat) : option val :=
   match nth_error l k with Some v => v | None => None end.
@@ -377,7 +423,7 @@ Definition proc_model (c : proc_case) :=
             (proc_step pu (p_ufn (q_prog c)) (q_keep_kwargs c) (resume_fn (q_resume c)))
             (proc_restore pu (mk_nm (q_attrs c)) pub pu_save pu_load)
             pnode (fun x => save_payload (mk_nm (q_attrs c)) (fst x)) (plan_fn (q_plan c)) fuel 0
-            (proc_init pu (mk_pu [] [] [] [])).
+            (proc_init pu (pu0 (q_inputs c))).
 
 Definition proc_ok (c : proc_case) : bool :=
   match proc_model c with
@@ -387,7 +433,8 @@ Definition proc_ok (c : proc_case) : bool :=
   | (obs, Some (RDone (o, u))) =>
       list_eqb pnode_eqb obs (qo_bounds c) && pres_eqb (PResult o) (qo_result c) &&
       list_eqb tentry_eqb (p_trace u) (qo_trace c) &&
-      kvs_eqb (p_ctx u) (qo_ctx c) && kvs_eqb (p_outs u) (qo_outs c)
+      kvs_eqb (p_ctx u) (qo_ctx c) && kvs_eqb (p_outs u) (qo_outs c) &&
+      list_eqb seen_eqb (i_seen (p_in u)) (qo_seen c)
   end.
 
 (* ---------------------------------------------------------------- payload cases *)
